@@ -53,19 +53,23 @@ Definition eclass_code (e : eclass) : nat :=
   | ENoString => 4 | ETooMany => 5 | ENotConf => 6
   end.
 
-Fixpoint tbl_lookup (k : str) (t : list (wstr * wpret)) : option wpret :=
+Fixpoint tbl_lookup (k : str) (t : list (str * wpret)) : option wpret :=
   match t with
   | [] => None
-  | (k', v) :: t' => if str_eqb k (s2l k') then Some v else tbl_lookup k t'
+  | (k', v) :: t' => if str_eqb k k' then Some v else tbl_lookup k t'
   end.
 
-Definition retrieve_tbl (schemes : list wstr) (tbl : list (wstr * wpret)) (sch opaque : str) : res retrieved :=
-  if existsb (fun s => str_eqb sch (s2l s)) schemes then
-    match tbl_lookup (sch ++ cColon :: opaque) tbl with
-    | Some (WPVal v s) => Ok (mkRet (of_w v) (option_map s2l s))
-    | _ => Err [EProvider]
-    end
-  else Err [ENoScheme].
+(* the table and the scheme list are converted once (vm_compute is call-by-value) *)
+Definition retrieve_tbl (schemes : list wstr) (tbl : list (wstr * wpret)) : str -> str -> res retrieved :=
+  let schemes' := map s2l schemes in
+  let tbl' := map (fun kv : wstr * wpret => (s2l (fst kv), snd kv)) tbl in
+  fun sch opaque =>
+    if existsb (str_eqb sch) schemes' then
+      match tbl_lookup (sch ++ cColon :: opaque) tbl' with
+      | Some (WPVal v s) => Ok (mkRet (of_w v) (option_map s2l s))
+      | _ => Err [EProvider]
+      end
+    else Err [ENoScheme].
 
 (* ---- canonical form: map entries sorted by key (bytewise), recursively ------------------------ *)
 Fixpoint str_ltb (a b : str) : bool :=
